@@ -147,7 +147,7 @@ def _reset_data(M):
         for t in ('Person_Tag', 'Person', 'Group', 'Tag'):
             db.execute('delete from "%s"' % t)
         db.execute("insert into \"Group\"(id, title) values (1, 'g1'), (2, 'g2'), (3, 'g3')")
-        db.execute("insert into Person(id, name, age, \"group\") values (1, 'p1', 10, 1), (2, 'p2', 60, 2)")
+        db.execute("insert into Person(id, name, age, \"group\") values (1, 'p1', 10, 1), (2, 'p2', 60, 2), (5, 'p5', 20, 1)")          # p5: a second member of g1 that no scenario loads by itself
         db.execute("insert into Tag(id, label) values (1, 't1'), (2, 't2')")
         db.execute("insert into Person_Tag(person, tag) values (1, 1), (2, 1)")
 
@@ -272,6 +272,11 @@ def _reads(M):
         t1_persons_count=lambda: T[1].persons.count(),
         t2_persons=lambda: names(T[2].persons),
         t2_is_empty=lambda: T[2].persons.is_empty(),
+        p1_tags_is_empty=lambda: P[1].tags.is_empty(),
+        # an emptiness answer must not disturb what the collection says afterwards
+        p1_tags_is_empty_then_content=lambda: (P[1].tags.is_empty(), T[1] in P[1].tags, names(P[1].tags), P[1].tags.count()),
+        members_is_empty_then_content=lambda: (G[1].members.is_empty(), names(G[1].members), len(G[1].members), G[1].members.count()),
+        t1_persons_is_empty_then_content=lambda: (T[1].persons.is_empty(), names(T[1].persons)),
         select_by_tag=lambda: names(orm.select(p for p in P if T[2] in p.tags)),
         group_of_p2=lambda: nm(P[2].group),
         join_count=lambda: sorted(orm.select((g.title, orm.count(g.members)) for g in G)[:]),
